@@ -21,6 +21,11 @@ ASSUMPTIONS = ['SHA-256 and the signature primitives are external (hashlib / pyc
                'signature bytes as data and decides WHICH bytes they are computed over and where they go']
 
 
+def shipped(label):
+    """labels of the signers the library ships (and 'none'); the synthetic signer may break the size contract on purpose"""
+    return not label.startswith('synthetic')
+
+
 def conv_interest_result(r):
     name, params, app, ptrs = r
     return ([bytes(c) for c in name], params.can_be_prefix, params.must_be_fresh,
@@ -57,6 +62,9 @@ def one_interest(ctx, M, name, ip, app, signer, label):
     m = M([1, req, digest, sigval])[1]
     if r != 'ok':
         ctx.disagree('make_interest', 'implementation raises, model returns', case, m[0], r)
+        if shipped(label):
+            ctx.violation('make_interest', 'shipped-signer-no-packet',
+                          f'legal arguments and a shipped signer, but make_interest raises {r} and emits nothing', case)
         return None
     if m[0] != wire:
         ctx.disagree('make_interest', 'different wire', case, m[0], wire)
@@ -119,6 +127,9 @@ def one_data(ctx, M, name, meta_args, content, signer, label):
     m = m[1]
     if r != 'ok':
         ctx.disagree('make_data', 'implementation raises, model returns', case, m[0], r)
+        if shipped(label):
+            ctx.violation('make_data', 'shipped-signer-no-packet',
+                          f'legal arguments and a shipped signer, but make_data raises {r} and emits nothing', case)
         return None
     if m[0] != wire:
         ctx.disagree('make_data', 'different wire', case, m[0], wire)
